@@ -1402,6 +1402,67 @@ func (a *Analysis) IdxGuard() *report.RuleResult {
 		}
 		return tbState == 1
 	}
+	// ffWindow: the site cuts lex.data[a:b] with a and b two parameters its function does not assign, and every
+	// call of that function either is an action of Lex (whose free-floating bounds ff-span and token-bounds decide)
+	// or hands its own unassigned parameters on in the same roles - however the recording helper is split or its
+	// parameters are called
+	byName := map[string]*types.Func{}
+	for fn := range finfo {
+		byName[fn.Name()] = fn
+	}
+	var ffLike func(fn *types.Func, lo, hi string, depth int) bool
+	ffLike = func(fn *types.Func, lo, hi string, depth int) bool {
+		fi := finfo[fn]
+		if fi == nil || depth > 3 {
+			return false
+		}
+		li, ok1 := fi.params[lo]
+		hi2, ok2 := fi.params[hi]
+		if !ok1 || !ok2 || fi.assigned[lo] || fi.assigned[hi] || len(callsTo[fn]) == 0 {
+			return false
+		}
+		for _, c := range callsTo[fn] {
+			if c.caller == nil || c.caller.Name() == "Lex" {
+				continue // an action of the automaton
+			}
+			if li >= len(c.args) || hi2 >= len(c.args) || !c.argOK[li] || !c.argOK[hi2] {
+				return false
+			}
+			one := func(e lexpr) (string, bool) {
+				if e.K != 0 || len(e.T) != 1 {
+					return "", false
+				}
+				for t, cf := range e.T {
+					if cf == 1 {
+						return t, true
+					}
+				}
+				return "", false
+			}
+			a, okA := one(c.args[li])
+			b, okB := one(c.args[hi2])
+			if !okA || !okB || !ffLike(c.caller, a, b, depth+1) {
+				return false
+			}
+		}
+		return true
+	}
+	ffWindow := func(k string) bool {
+		parts := strings.SplitN(k, "/", 2)
+		if len(parts) != 2 {
+			return false
+		}
+		expr := strings.SplitN(parts[1], " !", 2)[0]
+		if !strings.HasPrefix(expr, "lex.data[") || !strings.HasSuffix(expr, "]") {
+			return false
+		}
+		b := strings.SplitN(expr[len("lex.data["):len(expr)-1], ":", 2)
+		fn := byName[parts[0]]
+		if len(b) != 2 || fn == nil {
+			return false
+		}
+		return ffLike(fn, strings.TrimSpace(b[0]), strings.TrimSpace(b[1]), 0)
+	}
 	var mproved map[string]bool
 	markProved := func() map[string]bool {
 		if mproved == nil {
@@ -1423,7 +1484,7 @@ func (a *Analysis) IdxGuard() *report.RuleResult {
 		} else if expr := strings.SplitN(strings.TrimPrefix(k, "Lex/"), " !", 2)[0]; strings.HasPrefix(k, "Lex/") && markProved()[expr] {
 			res.OK(k, m.Prog.Pos(v.pos), fn, "the bounds rest on cursor positions kept in locals of Lex: proved by mark-flow (recorded on every path since the token began, in order, inside the token; a recorded cursor is < len)")
 			res.Count("by-mark-flow", 1)
-		} else if strings.HasPrefix(k, "addFreeFloatingToken/lex.data[ps:pe]") && tokenBoundsOK() {
+		} else if ffWindow(k) && tokenBoundsOK() {
 			res.OK(k, m.Prog.Pos(v.pos), fn, "every call is an action of Lex that passes the token bounds at that moment (ff-span), and token-bounds shows 0 <= start <= end for each of them; te never exceeds len (token-bounds/writes)")
 			res.Count("by-token-bounds", 1)
 		} else if why, ok := idxReviewed[k]; ok {
